@@ -76,6 +76,54 @@ CHECKS = {
     note="Trusted: the lookup model (class MRO, mixin, object, __getattr__); the generator (introspection + ast.unparse); operators + * % "
          "and 13 object-describing names are outside the claim; bytes(x) is compared with str(x).encode(default). No axioms.",
     technique="Coq proof over generated tables (finite, vm_compute) + lookup model lemmas + differential oracle against str"),
+ "C01": dict(
+    category="proof",
+    text="PARTIAL. Proved (Coq, all trees): the Builder rebuilds every well-formed tree from its token stream exactly and the rebuilt "
+         "tree renders the same text; rendering is compositional. The Builder and node-rendering model is tied to /repo by comparing, "
+         "for every token stream both real tokenizers produce on the input stream, the real tree and its text with the extracted "
+         "model's, and by observing that every real stream is in the image of the flattening on which the theorem speaks. NOT proved: "
+         "that the tokenizers' output spells the input (1.5k-line backtracking tokenizer, C twin): validated by the round-trip oracle "
+         "on table-driven + generated inputs (both tokenizers, skip_style_tags, URL context) and on text assigned through setters.",
+    design_ref="DESIGN.md section 5, C01",
+    note="Trusted: Coq kernel; extraction + driver; harness; crash-isolating workers. The tokenizer half is testing, not proof. No axioms.",
+    technique="Coq proof of the Builder/rendering half (build o flatten = id, induction on token-stream length) + model/implementation correspondence + round-trip oracle (testing) for the tokenizers"),
+ "C02": dict(
+    category="proof",
+    text="PARTIAL. Proved (Coq): on the token stream of every well-formed tree the Builder returns a tree (no ParserError, fuel bound), "
+         "each node being consumed whatever follows it. NOT proved: that the tokenizers never raise and always emit such streams: "
+         "validated by parsing table-driven, generated and memo-collision inputs with both tokenizers in crash-isolating workers "
+         "(exception, hang, killed interpreter = failure) and by the Builder model tie on every real stream.",
+    design_ref="DESIGN.md section 5, C02",
+    note="Trusted: as C01. The tokenizer half is testing, not proof. No axioms.",
+    technique="Coq proof of Builder totality on well-formed streams + correspondence + totality oracle (testing) for the tokenizers"),
+ "C03": dict(
+    category="proof",
+    text="PARTIAL. Proved (Coq, all well-formed trees): build (flatten t) = t - same kinds, nesting, names, values, levels, attributes, "
+         "flags - and positional parameters are named 1,2,3... NOT proved: tokenizer completeness tokenize(render t) = flatten t: "
+         "validated by generating trees of well-formed constructs as real node objects, rendering them and comparing the tree parsed "
+         "by BOTH tokenizers field by field; tables by substitution into skeletons.",
+    design_ref="DESIGN.md section 5, C03",
+    note="Trusted: as C01; the tree generator's grammar (context rules listed in the evidence). No axioms.",
+    technique="Coq proof of the Builder half + grammar-based generation with field-by-field comparison (testing) for the tokenizers"),
+ "C04": dict(
+    category="proof",
+    text="PARTIAL. Proved (Coq) on tables regenerated on every run from BOTH sources (Python modules imported; C headers/sources parsed): "
+         "context flags, tag contexts, markers (+NUM_MARKERS, regex class), MAX_DEPTH, MAX_BRACES, URI scheme lists, tag classes, markup "
+         "map, token names, entity tables agree; flags are distinct bits, aggregates use declared bits; for ALL strings the Python lookup "
+         "(lower() in TABLE) and the C lookup (ASCII strcmp) agree. NOT proved: equality of the token streams: checked by differential "
+         "execution on table-driven inputs (every scheme/tag/entity/brace-run form) and the generated stream.",
+    design_ref="DESIGN.md section 5, C04",
+    note="Trusted: the table generator (import + #define/array parsing, fail-closed); stream equality is testing. No axioms.",
+    technique="Coq proof over generated constant tables (vm_compute) + lookup equivalence lemma + differential execution of both tokenizers (testing)"),
+ "C14": dict(
+    category="proof",
+    text="PARTIAL. Proved (Coq, all trees): a token stream with no empty and no adjacent Text tokens yields a tree in which NO node list, "
+         "top-level or nested, has an empty or two adjacent Text nodes; with the Builder theorem this reduces canonical trees to canonical "
+         "streams. NOT proved: that the tokenizers only emit canonical streams: validated on both tokenizers' streams and on every node "
+         "list of every parsed tree over the shared input stream.",
+    design_ref="DESIGN.md section 5, C14",
+    note="Trusted: as C01. The tokenizer half is testing, not proof. No axioms.",
+    technique="Coq proof (canonical tokens => canonical tree, induction on stream length) + correspondence + canonical-form oracle (testing)"),
 }
 
 NOT_YET = {}
